@@ -40,7 +40,7 @@ def steppedModel (pre post : Core) (op : String) (j : Json) (msgs : List Json) :
       | none => some pre
       | some a => match a.items.find? (·.key == sj "key") with
         | none => some pre
-        | some i => if i.release.isSome || i.released || i.preempted || !pre.reservations == 0 || a.items.any (fun x => x.release == some i.key) then none
+        | some i => if i.release.isSome || i.released || i.preempted || (i.bound && !i.inReq) || !pre.reservations == 0 || a.items.any (fun x => x.release == some i.key) then none
                     else some (pre.releaseKey (sj "app") (sj "key")))
   | "schedule" =>
     if msgs.any (fun m => msgT m "t" == "release") || pre.reservations != post.reservations then none
